@@ -8,6 +8,8 @@ import PyramidModel.Gen.C13Skeleton
    REQ = {"tw":b,"route":b,"faults":[[point,kind],…],"regs":[[stage,"resp"|"fin",kind|null],…] (stage = point | ["cb",parent id]),"xx":kind|null,
           "xo":null|[kind,kind|null,otherRegistry],"subs":[REQ,…]}
    -> {"tree":TREE}   TREE = {"own":[event,…],"out":"resp"|"plain"|"http","depth":n,"kids":[TREE,…],"left":[resp,fin]}
+{"op":"policy","policy":"simple"|"retry","xv":b,"base":n,"reqs":[REQ,…]}
+   -> {"attempts":[TREE,…],"post":TREE|null,"out":…,"depth":n}     (custom execution policies)
 {"op":"exec","entry":name,"depth":n,"raises":[[site,k],…],"takes":[[site,k],…],"iters":[[site,k,n],…],"quiet":[site,…]}
    -> {"depth":n,"outcome":"normal"|"returned"|"raised","trace":[[site,depth,flag],…] (oldest first),
        "balanced":b,"opens":b,"closes":b}
@@ -166,6 +168,23 @@ def main : IO Unit := jsonDriver fun j => do
     let stack0 : List Pipeline.Path := List.replicate base [999999]
     let (tr, _, _) := Pipeline.runTop xv req stack0
     return Json.mkObj [("tree", trJson tr)]
+  | "policy" =>
+    let xv := boolField j "xv"
+    let base : Nat ← getAs j "base"
+    let pol : String ← getAs j "policy"
+    let reqs ← (← arrField j "reqs").mapM parseReq
+    let stack0 : List Pipeline.Path := List.replicate base [999999]
+    match pol, reqs with
+    | "simple", [r] =>
+      let (tr, post, out, st) := Pipeline.runSimple xv r stack0
+      return Json.mkObj [("attempts", Json.arr #[trJson tr]),
+        ("post", match post with | some p => trJson p | none => Json.null),
+        ("out", Json.str (outName out)), ("depth", toJson st.length)]
+    | "retry", _ =>
+      let (trs, out, st) := Pipeline.runRetry xv reqs 0 stack0
+      return Json.mkObj [("attempts", Json.arr (trs.map trJson).toArray), ("post", Json.null),
+        ("out", Json.str (outName out)), ("depth", toJson st.length)]
+    | _, _ => throw "bad policy case"
   | "exec" =>
     let entry : String ← getAs j "entry"
     let depth : Nat ← getAs j "depth"
